@@ -74,4 +74,51 @@ example :
     ((beginBlockRemove s).get "0").phase = .deleted ∧ (beginBlockRemove s).client2c = [] ∧
     ((beginBlockRemove { s with now := 9 }).get "0").phase = .stopped := by decide
 
+/-! ### the removal schedule, per consumer -/
+
+theorem set_removeQ (s : State) (x : Consumer) : (s.set x).removeQ = s.removeQ := by
+  unfold State.set; split <;> rfl
+
+theorem delete_removeQ (s s' : State) (c : CId) (h : deleteConsumerChain s c = some s') :
+    s'.removeQ = s.removeQ := by
+  unfold deleteConsumerChain at h
+  by_cases hp : ((s.get c).phase != Phase.stopped) = true
+  · simp only [hp, if_true] at h; cases h
+  · simp only [hp, Bool.false_eq_true, if_false, Option.some.injEq] at h
+    rw [← h]; exact set_removeQ _ _
+
+theorem removeLoop_removeQ (ids : List CId) (s : State) :
+    (ids.foldl (fun s c => match deleteConsumerChain s c with | some s' => s' | none => s) s).removeQ
+      = s.removeQ := by
+  induction ids generalizing s with
+  | nil => rfl
+  | cons c rest ih =>
+    simp only [List.foldl_cons]
+    rw [ih]
+    cases hd : deleteConsumerChain s c with
+    | none => rfl
+    | some s1 => exact delete_removeQ s s1 c hd
+
+/-- the deletion loop never touches the removal schedule: after BeginBlock it is exactly what the
+    consumption left -/
+theorem beginBlockRemove_removeQ (s : State) :
+    (beginBlockRemove s).removeQ = (tqConsume s.removeQ s.now 200).2 := by
+  unfold beginBlockRemove
+  exact removeLoop_removeQ _ _
+
+/-- per consumer: removals attempted in this block plus removals still scheduled are the removals
+    that were scheduled — a stopped consumer is neither forgotten nor removed twice -/
+theorem removal_counts_conserved (s : State) (c : CId) :
+    ((tqConsume s.removeQ s.now 200).1.filter (· == c)).length + countIn (beginBlockRemove s).removeQ c
+      = countIn s.removeQ c := by
+  rw [beginBlockRemove_removeQ]
+  have h := congrArg (fun l => (l.filter (· == c)).length) (tqConsume_conserves s.removeQ s.now 200)
+  simp only [List.filter_append, List.length_append] at h
+  exact h
+
+/-- stopping schedules the removal exactly once more for that consumer and for nobody else -/
+theorem stop_schedules_once (s : State) (c c' : CId) (hs : sortedQ s.removeQ = true) :
+    countIn (stopConsumer s c).removeQ c' = countIn s.removeQ c' + (if c' = c then 1 else 0) :=
+  C10.countIn_tqAppend s.removeQ (s.now + s.unbonding) c c' hs
+
 end ICS.Props.C11
